@@ -18,7 +18,7 @@ from common.util import Result, f2b, b2f, fl, err_kind
 from common import nets, nets_g, batch_g
 
 ID = 'C16'
-N = {'quick': 110, 'thorough': 2400}
+N = {'quick': 160, 'thorough': 2400}
 LEAN_MODULES = ['GnpyProofs.Props.C16']
 THEOREMS = [f'Gnpy.Plan.{t}' for t in (
     'plan_results_pointwise', 'plan_result_context', 'plan_perm', 'plan_leaves_settings', 'copy_leaves_settings',
@@ -201,7 +201,12 @@ def run(case, drv):
             impl_err = None
         except (ServiceError, EquipmentConfigError, ValueError) as e:
             impl_err = err_kind(e)
-        res.cmp_exact('planning.error_kind', impl_err, exp_err)
+        model_err = drv.ask('c19.batch_check', trx_known=[r['type'] in ctx['eq']['Transceiver'] for r in reqs],
+                            ids=[r['id'] for r in reqs],
+                            endpoints_known=[r['dst'] <= case['n'] + 1 and r['src'] <= case['n'] + 1 for r in reqs],
+                            strict_unknown_include=[bool(r['include']) and r['strict'] and any(
+                                x not in {n.uid for n in net.nodes()} for x in r['include']) for r in reqs])
+        res.cmp_exact('planning.error_kind', impl_err, model_err)
         if impl_err != exp_err:
             res.fail(f'batch check: a batch with {mal or "valid"} requests gave {impl_err}, must give {exp_err}')
         unchanged('planning of the whole batch' + (f' (rejected: {impl_err})' if impl_err else ''))
